@@ -467,3 +467,201 @@ End Send.
 
 Lemma no_sec_frag : forall f, flag_set (flags (prim f)) flag_is_fragment = true -> no_sec f = f.
 Proof. reflexivity. Qed.
+
+(** * 7. The statements of Props/C05.v *)
+
+Lemma filter_all {A} (f : A -> bool) l : (forall x, f x = true) -> filter f l = l.
+Proof. intros H. induction l as [|x l IH]; [reflexivity|]. cbn [filter]. rewrite H, IH. reflexivity. Qed.
+
+Lemma strip_fill_tmpl d k : strip (fill_blk d (tmpl_blk k)) = strip k.
+Proof.
+  unfold strip. rewrite is_pay_fill, is_pay_tmpl. unfold fill_blk, tmpl_blk.
+  destruct (is_pay k) eqn:E; [rewrite is_pay_set_btsd, E; reflexivity|]. rewrite E. reflexivity.
+Qed.
+
+Lemma strip_blocks_frag_at b pd off d :
+  0 <= off ->
+  map strip (blocks (frag_at b pd off d)) =
+  map strip (if (Z.to_N off =? 0)%N then blocks b else filter (fun k => replicated k || is_pay k) (blocks b)).
+Proof.
+  intros Hoff. unfold frag_at, fill, template. cbn [blocks]. rewrite !map_map.
+  rewrite (map_ext _ strip) by (intros; apply strip_fill_tmpl).
+  f_equal. unfold sel_blocks. rewrite Z2N.id by exact Hoff.
+  destruct (N.eqb_spec (Z.to_N off) 0) as [E|E].
+  - apply filter_all. intros k. unfold keep_block. replace off with 0 by lia. reflexivity.
+  - apply filter_ext. intros k. unfold keep_block, replicated, is_pay, is_payload_block.
+    destruct (off =? 0) eqn:Z0; [lia|]. reflexivity.
+Qed.
+
+Theorem frags_tiling b m l pd :
+  one_payload b -> fragment_step b (Some m) = Frags l -> payload_of b = Some pd ->
+  concat (map frag_data l) = pd /\ offsets_from 0 l /\ Forall (fun f => frag_total f = Some (olen pd)) l.
+Proof.
+  intros Hone Hf Hp. destruct (fragment_step_frags _ _ _ Hone Hf) as (pd' & Hp' & Hc & _).
+  rewrite Hp in Hp'. inversion Hp'; subst pd'. split; [|split].
+  - apply (chain_concat b (Z.of_N m) pd Hone l 0 ltac:(lia) Hc).
+  - apply (chain_offsets b (Z.of_N m) pd Hone l 0 ltac:(lia) Hc).
+  - apply (chain_forall b (Z.of_N m) pd _ l 0 ltac:(lia) Hc). intros; reflexivity.
+Qed.
+
+Theorem frags_progress b m l pd :
+  one_payload b -> fragment_step b (Some m) = Frags l -> payload_of b = Some pd ->
+  Forall (fun f => (1 <= length (frag_data f))%nat) l /\ (length l <= length pd)%nat.
+Proof.
+  intros Hone Hf Hp. destruct (fragment_step_frags _ _ _ Hone Hf) as (pd' & Hp' & Hc & _).
+  rewrite Hp in Hp'. inversion Hp'; subst pd'. split.
+  - apply (chain_forall b (Z.of_N m) pd _ l 0 ltac:(lia) Hc). intros o d _ _ Hd _.
+    unfold frag_at. rewrite (fill_template_data b Hone). lia.
+  - pose proof (chain_length b (Z.of_N m) pd l 0 ltac:(lia) Hc). lia.
+Qed.
+
+Theorem frags_identity_blocks b m l :
+  one_payload b -> fragment_step b (Some m) = Frags l ->
+  Forall (fun f =>
+            version (prim f) = version (prim b) /\ crc_type (prim f) = crc_type (prim b) /\
+            dest (prim f) = dest (prim b) /\ src (prim f) = src (prim b) /\ report_to (prim f) = report_to (prim b) /\
+            create_time (prim f) = create_time (prim b) /\ create_seq (prim f) = create_seq (prim b) /\
+            lifetime (prim f) = lifetime (prim b) /\
+            flags (prim f) = N.lor (flags (prim b)) flag_is_fragment /\
+            flag_set (flags (prim f)) flag_is_fragment = true /\
+            map strip (blocks f) =
+            map strip (if (frag_off f =? 0)%N then blocks b
+                       else filter (fun k => replicated k || is_pay k) (blocks b))) l.
+Proof.
+  intros Hone Hf. destruct (fragment_step_frags _ _ _ Hone Hf) as (pd & Hp & Hc & _).
+  apply (chain_forall b (Z.of_N m) pd _ l 0 ltac:(lia) Hc). intros o d Ho _ _ _.
+  repeat (split; [reflexivity|]). split; [apply frag_at_is_fragment|].
+  rewrite (frag_at_off b pd o d Ho). apply strip_blocks_frag_at. exact Ho.
+Qed.
+
+(** the first fragment is the one at offset 0; every later one starts further on *)
+Lemma offsets_increasing : forall l off,
+  offsets_from off l -> Forall (fun f => (1 <= length (frag_data f))%nat) l ->
+  Forall (fun f => (off <= frag_off f)%N) l.
+Proof.
+  induction l as [|f r IH]; intros off H Hp; [constructor|].
+  cbn [offsets_from] in H. destruct H as [Ho Hr]. inversion Hp as [|? ? Hf Hpr]; subst.
+  constructor; [lia|]. specialize (IH _ Hr Hpr). revert IH. apply Forall_impl. intros g Hg. unfold olen in Hg. lia.
+Qed.
+
+Theorem frags_first_offset b m f l pd :
+  one_payload b -> fragment_step b (Some m) = Frags (f :: l) -> payload_of b = Some pd ->
+  frag_off f = 0%N /\ Forall (fun g => (0 < frag_off g)%N) l.
+Proof.
+  intros Hone Hf Hp.
+  destruct (frags_tiling _ _ _ _ Hone Hf Hp) as (_ & Ho & _).
+  destruct (frags_progress _ _ _ _ Hone Hf Hp) as (Hpr & _).
+  cbn [offsets_from] in Ho. destruct Ho as [Ho Hr]. split; [exact Ho|].
+  inversion Hpr as [|? ? Hf1 Hprr]; subst.
+  pose proof (offsets_increasing _ _ Hr Hprr) as H. revert H. apply Forall_impl. intros g Hg. unfold olen in Hg. lia.
+Qed.
+
+(** ** the whole send request *)
+
+Theorem send_unchanged sec b mtu :
+  mtu = None \/ flag_set (flags (prim (sec b))) flag_no_fragment = true
+  \/ flag_set (flags (prim (sec b))) flag_is_fragment = true
+  \/ (exists m, mtu = Some m /\ tx_size (sec b) <= Z.of_N m) ->
+  send_request sec b mtu = [tx (sec b)].
+Proof. intros H. unfold send_request. rewrite (fragment_step_unchanged _ _ H). reflexivity. Qed.
+
+(** must be split: the output is the complete fragment list or nothing at all *)
+Theorem send_all_or_nothing sec b m :
+  (forall f, flag_set (flags (prim f)) flag_is_fragment = true -> sec f = f) ->
+  frag_allowed (sec b) -> one_payload (sec b) -> Z.of_N m < tx_size (sec b) ->
+  send_request sec b (Some m) = [] \/
+  exists l, fragment_step (sec b) (Some m) = Frags l /\ send_request sec b (Some m) = map tx l.
+Proof.
+  intros Hsec [Hnf Hif] Hone Hbig.
+  destruct (fragment_step (sec b) (Some m)) as [| | |l|] eqn:Hf.
+  - exfalso. unfold fragment_step in Hf.
+    destruct (should_fragment true (Z.of_N m) (tx_size (sec b)) (flags (prim (sec b)))) eqn:Hs.
+    + destruct (payload_of (sec b)); [|discriminate]. destruct (non_pyld_too_big _ _); [discriminate|].
+      destruct (frag_loop _ _ _ _ _ _); discriminate.
+    + unfold should_fragment in Hs. rewrite Hnf, Hif in Hs. cbn [negb andb] in Hs. rewrite !andb_true_r in Hs. lia.
+  - exfalso. destruct (payload_of_one _ Hone) as (pd & Hp). unfold fragment_step in Hf.
+    destruct (should_fragment _ _ _ _); [|discriminate]. rewrite Hp in Hf.
+    destruct (non_pyld_too_big _ _); [discriminate|]. destruct (frag_loop _ _ _ _ _ _); discriminate.
+  - left. unfold send_request. rewrite Hf. reflexivity.
+  - right. exists l. split; [reflexivity|]. apply (send_request_frags sec Hsec _ _ _ Hone Hf).
+  - exfalso. exact (fragment_step_not_stuck _ _ Hf).
+Qed.
+
+(** no room for a single payload octet next to the first fragment's blocks: nothing is sent *)
+Theorem send_infeasible sec b m pd :
+  frag_allowed (sec b) -> payload_of (sec b) = Some pd -> Z.of_N m < tx_size (sec b) ->
+  Z.of_N m < tx_size (template (sec b) 0 (olen pd)) + pyld_size_enc pd ->
+  send_request sec b (Some m) = [].
+Proof.
+  intros [Hnf Hif] Hp Hbig Hroom. unfold send_request, fragment_step.
+  assert (Hs : should_fragment true (Z.of_N m) (tx_size (sec b)) (flags (prim (sec b))) = true).
+  { unfold should_fragment. rewrite Hnf, Hif. cbn [negb andb]. rewrite !andb_true_r. lia. }
+  rewrite Hs, Hp.
+  destruct (non_pyld_too_big _ _); [reflexivity|].
+  cbn [frag_loop]. unfold frag_init_offset.
+  destruct (frag_loop_test 0 (Z.of_nat (length pd))) eqn:Ht; [|reflexivity].
+  change (Z.to_N 0) with 0%N.
+  replace (frag_size_bad _) with true; [reflexivity|].
+  symmetry. unfold frag_size_bad, frag_size. lia.
+Qed.
+
+Theorem frags_within_mtu b m l :
+  one_payload b -> fragment_step b (Some m) = Frags l ->
+  Forall (fun f => Z.of_nat (length (tx f)) <= Z.of_N m) l.
+Proof.
+  intros Hone Hf. destruct (fragment_step_frags _ _ _ Hone Hf) as (pd & _ & Hc & _).
+  apply (chain_forall b (Z.of_N m) pd _ l 0 ltac:(lia) Hc). intros o d _ _ _ Hsz. rewrite tx_length. exact Hsz.
+Qed.
+
+Theorem within_mtu_plain b m :
+  frag_allowed b -> one_payload b ->
+  Forall (fun o => Z.of_nat (length o) <= Z.of_N m) (send_request no_sec b (Some m)).
+Proof. intros Ha Ho. apply (within_mtu_sec no_sec no_sec_frag b m Ha Ho). Qed.
+
+(** * 8. A security step that adds a block to whatever passes: the refutation witness *)
+
+Lemma fold_max_ge l : forall a, (a <= fold_left (fun acc k => N.max acc (bnum k)) l a)%N.
+Proof. induction l as [|k l IH]; intros a; cbn [fold_left]; [lia|]. specialize (IH (N.max a (bnum k))). lia. Qed.
+
+Lemma find_skip {A} (p : A -> bool) x : forall a c, p x = false -> find p (a ++ x :: c) = find p (a ++ c).
+Proof.
+  induction a as [|y a IH]; intros c H; cbn [app find]; [rewrite H; reflexivity|].
+  destruct (p y); [reflexivity|]. apply IH. exact H.
+Qed.
+
+Lemma add_bib_benign k f : prim (add_bib k f) = prim f /\ payload_of (add_bib k f) = payload_of f.
+Proof.
+  split; [reflexivity|]. unfold payload_of, add_bib. cbn [blocks app].
+  rewrite find_skip.
+  - rewrite firstn_skipn. reflexivity.
+  - unfold is_pay, is_payload_block, block_num_payload. cbn [bnum].
+    pose proof (fold_max_ge (blocks f) 1%N) as H. unfold max_num.
+    destruct (N.eqb_spec (fold_left (fun acc k0 => N.max acc (bnum k0)) (blocks f) 1%N + 1) 1); [lia|reflexivity].
+Qed.
+
+Lemma not_forall_by_forallb (m : N) (outs : list bytes) :
+  forallb (fun o => Z.of_nat (length o) <=? Z.of_N m) outs = false ->
+  ~ Forall (fun o => Z.of_nat (length o) <= Z.of_N m) outs.
+Proof.
+  intros H F. rewrite Forall_forall in F.
+  assert (E : forallb (fun o => Z.of_nat (length o) <=? Z.of_N m) outs = true).
+  { apply forallb_forall. intros x Hx. apply Z.leb_le. apply F. exact Hx. }
+  congruence.
+Qed.
+
+(** a sample bundle: dtn://me/ -> dtn://far/svc, CRC-32C, a replicated and a plain extension block,
+    [n] octets of payload *)
+Definition sample (n : nat) : bundle :=
+  mkBundle (mkPrimary 7 0 2 (EidDtn [47; 47; 102; 97; 114; 47; 115; 118; 99]%N) (EidDtn [47; 47; 109; 101; 47]%N) EidDtnNone
+                      799999990000 3 3600000 None None)
+           [mkCBlock 194 2 1 2 (gdata 5 7) None; mkCBlock 193 3 0 1 (gdata 6 9) None; mkCBlock 1 1 0 2 (gdata 7 n) None].
+
+Lemma sec_refuted :
+  exists (sec : bundle -> bundle) (b : bundle) (m : N),
+    (forall f, prim (sec f) = prim f /\ payload_of (sec f) = payload_of f) /\
+    frag_allowed (sec b) /\ one_payload (sec b) /\
+    ~ Forall (fun o => Z.of_nat (length o) <= Z.of_N m) (send_request sec b (Some m)).
+Proof.
+  exists (add_bib 71), (sample 600), 250%N. split; [apply add_bib_benign|]. split; [split; reflexivity|]. split; [reflexivity|].
+  apply not_forall_by_forallb. vm_compute. reflexivity.
+Qed.
